@@ -190,19 +190,20 @@ def switch_edges(body):
 
 
 def dominating_edges(body, bb):
-    """switch edges (src, dst, label, term) that every path entry->bb takes"""
-    full = reach_from(body, [0])
-    if bb not in full:
-        return []
-    out = []
-    for (s, d, lab, t) in switch_edges(body):
-        if s not in full:
-            continue
-        # two edges from one switch may go to the same block with different labels: block by (s,d,lab)
-        r = reach_from(body, [0], blocked_edges={(s, d, lab)})
-        if bb not in r:
-            out.append((s, d, lab, t))
-    return out
+    """switch edges (src, dst, label, term) that every path entry->bb takes (computed once per body for all blocks)"""
+    cache = getattr(body, '_dom_edges', None)
+    if cache is None:
+        cache = {}
+        full = reach_from(body, [0])
+        for (s, d, lab, t) in switch_edges(body):
+            if s not in full:
+                continue
+            r = reach_from(body, [0], blocked_edges={(s, d, lab)})
+            for x in full - r:
+                cache.setdefault(x, []).append((s, d, lab, t))
+        body._dom_edges = cache
+        body._dom_full = full
+    return cache.get(bb, [])
 
 
 def edge_polarity(term, lab):
@@ -229,6 +230,17 @@ def guard_atoms(body, bb):
        ('cmp', op, descA, descB, polarity)
        ('variant', adt, variant_name, place_desc) enum discriminant test (positive) ; ('notvariant', adt, (names), desc)
        ('other', desc, polarity)"""
+    gc = getattr(body, '_guard_cache', None)
+    if gc is None:
+        gc = {}
+        body._guard_cache = gc
+    if bb in gc:
+        return gc[bb]
+    gc[bb] = _guard_atoms(body, bb)
+    return gc[bb]
+
+
+def _guard_atoms(body, bb):
     atoms = []
     for (s, d, lab, t) in dominating_edges(body, bb):
         pol = edge_polarity(t, lab)
